@@ -643,7 +643,7 @@ Proof.
       * fin_stage Hstage. apply Hvar. discriminate.
     + destruct (fr_varcoercion fr) as [|c cs] eqn:Hv; [auto|].
       fin_stage Hstage. apply Hvar. discriminate.
-    + destruct (p =? REJ_OPERATION); [fin_stage Hstage; reflexivity|].
+    + destruct (k =? REJ_OPERATION); [fin_stage Hstage; reflexivity|].
       destruct (fr_varcoercion fr) as [|c cs] eqn:Hv.
       * fin_stage Hstage. reflexivity.
       * fin_stage Hstage. apply Hvar. discriminate.
